@@ -61,6 +61,7 @@ Definition allow_list : list allowed := [
   A "service/queryLabelsService.go" "(*QueryLabelsService).GenericLabelReq" 0 BRowsForward 0 0 0 0 0;
   A "service/queryLabelsService.go" "(*QueryLabelsService).Series" 0 BCloseOnly 0 0 0 0 0;
   A "service/queryLabelsService.go" "(*QueryLabelsService).Series" 1 BRowsForward 0 0 0 0 0;
+  A "service/queryRangeService.go" "drain" 0 BDrainer 0 0 0 0 0;
   A "service/queryRangeService.go" "(*QueryRangeService).QueryRange" 0 BEncoder 0 0 0 0 0;
   (* float division e.TimestampNS/1e9 *)
   A "service/queryRangeService.go" "(*QueryRangeService).QueryRange" 1 BEncoder 1 0 0 0 0;
